@@ -202,6 +202,25 @@ def run(res, rng, tier, known):
     for d in orders:
         for rep in range(reps):
             one(cases, rng, tier, d, rep, dts[ci % 3]); ci += 1
+    # deterministic family: apply_mask with MANY index rows on a train of large rank (any internal blocking of the rows must be invisible)
+    for (Nb, Rb, rows) in ([([9, 8, 10], [1, 40, 40, 1], 6000), ([6, 5], [1, 5, 1], 200000)] if tier != "quick" else [([9, 8, 10], [1, 40, 40, 1], 6000)]):
+        g = tn.Generator().manual_seed(rng.randrange(1 << 30))
+        xb = torchtt.TT([tn.randint(-2, 3, [Rb[k], Nb[k], Rb[k + 1]], generator=g).to(tn.float64) for k in range(len(Nb))])
+        dxb = dense_of(xb)
+        itb = tn.stack([tn.randint(0, n, [rows], generator=g) for n in Nb], 1)
+        boxb = {}
+
+        def implb(xb=xb, itb=itb, boxb=boxb):
+            boxb["r"] = xb.apply_mask(itb)
+            return "ok"
+
+        def orcb(boxb=boxb, dxb=dxb, itb=itb):
+            if "r" not in boxb:
+                return "apply_mask raised"
+            want = dxb[tuple(itb[:, k] for k in range(itb.shape[1]))]
+            bad = (boxb["r"].reshape(-1) != want.reshape(-1)).nonzero()
+            return None if bad.numel() == 0 else "apply_mask with %d rows: %d entries differ from dense indexing, first bad row %d" % (itb.shape[0], bad.shape[0], int(bad[0]))
+        cases.append(Case(None, implb, orcb, "apply_mask/many-rows", True, desc="apply_mask N=%s R=%s rows=%d" % (Nb, Rb, rows)))
     rng.shuffle(cases)
     run_cases(res, cases, known)
     return {"level": LEVEL, "rule": RULE, "assumptions": ASSUMPTIONS,
